@@ -130,6 +130,7 @@ type Report struct {
 	hashes   map[uint64]struct{}
 	sets     map[string]map[string]struct{}
 	caseLog  *os.File
+	trace    *os.File
 	start    time.Time
 	maxSamp  int
 	maxViol  int
@@ -163,6 +164,27 @@ func (r *Report) Case(format string, args ...any) {
 	}
 	r.mu.Lock()
 	fmt.Fprintf(r.caseLog, "CASE "+format+"\n", args...)
+	r.mu.Unlock()
+}
+
+// TraceReset truncates the trace file (call at the start of a case); Trace appends a line to it
+// with an unbuffered write, so that after a process death the driver can attach what the dying
+// case had done so far to the crash violation.
+func (r *Report) TraceReset() {
+	r.mu.Lock()
+	defer r.mu.Unlock()
+	if r.trace != nil {
+		r.trace.Close()
+	}
+	r.trace, _ = os.OpenFile(filepath.Join(OutDir(), fmt.Sprintf("trace-%s-%d.log", r.p.Property, r.p.Shard)),
+		os.O_CREATE|os.O_WRONLY|os.O_TRUNC, 0o644)
+}
+
+func (r *Report) Trace(format string, args ...any) {
+	r.mu.Lock()
+	if r.trace != nil {
+		fmt.Fprintf(r.trace, format+"\n", args...)
+	}
 	r.mu.Unlock()
 }
 
